@@ -358,6 +358,18 @@ def write_replay(pid, v) -> Path:
     return p
 
 
+def out(*a, **kw):
+    """print that survives a closed pipe (./check ... | head): the verdict is the exit code."""
+    try:
+        print(*a, **kw)
+        (kw.get("file") or sys.stdout).flush()
+    except BrokenPipeError:
+        try:
+            sys.stdout = open(os.devnull, "w")  # noqa: SIM115
+        except OSError:
+            pass
+
+
 def run_check(mod, argv=None):
     """Top-level entry: runs a check module and honours the exit-code contract."""
     import argparse
@@ -379,10 +391,10 @@ def run_check(mod, argv=None):
             res = mod.replay(body["part"], body["case"])
             bad = [v for v in res.violations]
             if bad:
-                print(f"replay: still violating: {bad[0]['sig']}: {bad[0]['msg']}")
-                print(f"VIOLATION property={pid} replay={args.replay}")
+                out(f"replay: still violating: {bad[0]['sig']}: {bad[0]['msg']}")
+                out(f"VIOLATION property={pid} replay={args.replay}")
                 return 1
-            print("replay: case passes")
+            out("replay: case passes")
             return 0
 
         # 1. stored replays of known findings -> KNOWN-FINDING lines
@@ -396,7 +408,7 @@ def run_check(mod, argv=None):
             if any(v["sig"] == e["signature"] for v in res.violations):
                 known_lines.append(f"KNOWN-FINDING: property={pid} {e['what']}")
             else:
-                print(f"note: known finding '{e['signature']}' no longer reproduces "
+                out(f"note: known finding '{e['signature']}' no longer reproduces "
                       f"from its stored replay ({e['replay']})")
         # 2. the search itself
         stats, meta = mod.run(ctx)
@@ -405,14 +417,14 @@ def run_check(mod, argv=None):
                        extra=meta.get("extra"), assumptions=meta.get("assumptions"),
                        exhaustive=meta.get("exhaustive"))
         for line in known_lines:
-            print(line)
-        print(f"{pid} tier={tier} seed={seed} evaluations={stats.evaluations} "
+            out(line)
+        out(f"{pid} tier={tier} seed={seed} evaluations={stats.evaluations} "
               f"distinct_nontrivial={len(stats.nontrivial)} wall={wall:.1f}s "
               f"violations={len(stats.violations)}")
         for k, c in sorted(stats.classes.items()):
-            print(f"   class {k}: {c}")
+            out(f"   class {k}: {c}")
         if stats.known_hits:
-            print(f"   matched known findings: {dict(stats.known_hits)}")
+            out(f"   matched known findings: {dict(stats.known_hits)}")
         if stats.violations:
             seen = set()
             for v in stats.violations:
@@ -421,15 +433,15 @@ def run_check(mod, argv=None):
                     continue
                 seen.add(key)
                 p = write_replay(pid, v)
-                print(f"violation part={v['part']} sig={v['sig']}: {v['msg']}")
-                print(f"VIOLATION property={pid} replay={p}")
+                out(f"violation part={v['part']} sig={v['sig']}: {v['msg']}")
+                out(f"VIOLATION property={pid} replay={p}")
             return 1
         if stats.evaluations == 0 or len(stats.nontrivial) < 2:
             raise HarnessError("vacuous run: no non-trivial cases")
         return 0
     except HarnessError as e:
-        print(f"HARNESS ERROR in {pid}: {e}", file=sys.stderr)
+        out(f"HARNESS ERROR in {pid}: {e}", file=sys.stderr)
         return 2
     except Exception:  # noqa: BLE001
-        print(f"HARNESS ERROR in {pid}:\n{traceback.format_exc()}", file=sys.stderr)
+        out(f"HARNESS ERROR in {pid}:\n{traceback.format_exc()}", file=sys.stderr)
         return 2
